@@ -602,11 +602,20 @@ func TestC17(t *testing.T) {
 	d.poolNew = mkPool()
 	d.poolEmpty = mkPool()
 	d.fixture("leveragelp add pool", &levtypes.MsgAddPool{Authority: w.Gov, Pool: levtypes.AddPool{AmmPoolId: d.poolEmpty, LeverageMax: dec("5")}}, true)
+	// an external incentive on the leverage-enabled pool: the position account of the leveragelp position earns rewards
+	d.fixture("external reward denom", &mctypes.MsgAddExternalRewardDenom{Authority: w.Gov, RewardDenom: ATOM, MinAmount: I(1), Supported: true}, true)
+	d.fixture("external incentive", &mctypes.MsgAddExternalIncentive{Sender: m.User(0), RewardDenom: ATOM, PoolId: m.OraclePool, FromBlock: w.Ctx().BlockHeight(), ToBlock: w.Ctx().BlockHeight() + 100000, AmountPerBlock: I(1_000_000)}, false)
 	// past the one-hour lock of freshly committed LP shares, so that the owner's own close is accepted
 	if err := w.EndBlock(3700); err != nil {
 		t.Fatalf("block: %v", err)
 	}
 	m.RefreshPrices()
+	for i := 0; i < 3; i++ { // a few more blocks of reward distribution
+		if err := w.EndBlock(5); err != nil {
+			t.Fatalf("block: %v", err)
+		}
+		m.RefreshPrices()
+	}
 	d.cur = d.hash(w.Ctx().MultiStore())
 	base := d.cur
 
@@ -873,6 +882,9 @@ func TestC17(t *testing.T) {
 		viol("C17_root-store-changed-during-sweep", "the root multistore changed although nothing was committed", nil)
 	}
 
+	// ---- 4b. owner-flow sweep (harness/c17_owner_test.go): an attacker against every live foreign object, cases for Run/OwnerFlowRun.v
+	ocases := d.c17OwnerFlowSweep(types, viol)
+
 	// ---- 5. informational: messages that write module-wide configuration without any authority check
 	var open []string
 	for _, u := range urls {
@@ -912,7 +924,7 @@ func TestC17(t *testing.T) {
 	t.Logf("AddEntry from ordinary user: %s changed=%v; unguarded config-like: %v", ar.Kind, ar.Changed, open)
 
 	col.Case(0, strings.Join(d.cases, ";\n"))
-	header := "From Coq Require Import ZArith String List Bool.\nFrom Elys Require Import Base.Res Models.Authority Generated.Handlers Run.AuthorityRun.\nImport ListNotations.\nOpen Scope string_scope.\nOpen Scope Z_scope.\n"
-	footer := "Definition M := Eval vm_compute in mismatches cases.\nPrint M.\n"
+	header := "From Coq Require Import ZArith String List Bool.\nFrom Elys Require Import Base.Res Models.Authority Generated.Handlers Run.AuthorityRun.\nFrom Elys Require Import Models.OwnerFlow Generated.OwnerFlow Run.OwnerFlowRun.\nImport ListNotations.\nOpen Scope string_scope.\nOpen Scope Z_scope.\n"
+	footer := "Definition ocases := [\n" + ocases + "\n].\nDefinition M := Eval vm_compute in (mismatches cases ++ omismatches ocases)%list.\nPrint M.\n"
 	col.Finish(t, 1, header, footer, 1)
 }
